@@ -24,7 +24,6 @@ import (
 	crhp2 "go.sia.tech/core/rhp/v2"
 	crhp3 "go.sia.tech/core/rhp/v3"
 	"go.sia.tech/core/types"
-	"go.sia.tech/hostd/v2/host/registry"
 	"go.sia.tech/hostd/v2/internal/testutil"
 	"go.sia.tech/hostd/v2/internal/verifh/vhlib"
 	rhp2 "go.sia.tech/hostd/v2/rhp/v2"
@@ -99,7 +98,6 @@ type world struct {
 
 	sectorSeq  uint64
 	localAbort bool
-	hadUpdate  bool
 	cleanup    []func()
 }
 
@@ -118,7 +116,6 @@ func newNode(t *testing.T, w *world, v2 bool) {
 	// NewHostNode registers its cleanups with t; run every history in a sub-test so that the
 	// node of a finished history is torn down before the next one starts
 	w.node = testutil.NewHostNode(t, w.hostKey, network, genesis, log)
-	registry.VerifSetRecorderStore(w.node.Registry, w.node.Store)
 	// every block reward is one spendable output of the host wallet: enough of them for the
 	// collateral of several formations and renewals
 	extra := 30
@@ -249,8 +246,9 @@ func (w *world) revNum(i int) uint64 {
 func (w *world) newSector(seed uint64) *[sectorSize]byte {
 	var s [sectorSize]byte
 	binary.LittleEndian.PutUint64(s[:8], seed)
-	binary.LittleEndian.PutUint64(s[8:16], 0xC10C10)
-	binary.LittleEndian.PutUint64(s[sectorSize-8:], seed*2654435761)
+	// sectors differ in their first 16 bytes only: an RHP2 `update` of 64 bytes at offset 0 can turn
+	// one into another (the case in which the update action succeeds on the current tree)
+	binary.LittleEndian.PutUint64(s[8:16], 0xC10C10^(seed*2654435761))
 	return &s
 }
 
